@@ -563,8 +563,12 @@ def asb_decode(btsd):
     (targets, ctx_id, flags, source) = seq[:4]
     if not (isinstance(targets, list) and all(_is_uint(x) for x in targets) and _is_uint(ctx_id) and _is_uint(flags)):
         raise ValueError('ASB head')
-    if not (isinstance(source, list) and len(source) == 2):
+    if not (isinstance(source, list) and len(source) == 2 and source[0] in (1, 2)):
         raise ValueError('ASB source')
+    if source[0] == 1 and not (isinstance(source[1], str) or (source[1] == 0 and not isinstance(source[1], bool))):
+        raise ValueError('ASB source dtn SSP')
+    if source[0] == 2 and not (isinstance(source[1], list) and len(source[1]) == 2 and all(_is_uint(x) for x in source[1])):
+        raise ValueError('ASB source ipn SSP')
     rest = seq[4:]
     params = None
     if flags & 1:
